@@ -8,7 +8,7 @@ HOLD = "INVARIANTS TypeOK SizeBound ReportedExactlyOnce ViewBookkeeping PeersRes
 
 
 def gen(name, note, spec, peers, limit, workers, callers, delay, rounds, drops, inbound, fail, calls, api=0, gc=True,
-        atomic=False, signed=False, serialized=False, direct=False, maxlen=None, tail="", wanted=()):
+        atomic=False, signed=True, serialized=False, direct=False, maxlen=None, tail="", wanted=()):
     b = lambda x: "TRUE" if x else "FALSE"
     t = "\\* %s\nSPECIFICATION %s\nCONSTANTS\n" % (note, spec)
     for k, v in [("Peers", peers), ("Self", '"self"'), ("Limit", limit), ("Workers", workers), ("Callers", callers),
@@ -41,7 +41,7 @@ def wit(key, kind, prop, *a, **kw):
 
 
 wit("hardLimit", "inv", "HardLimit", P3, 2, W2, "{}", 1, 1, 0, 0, 0, 0)
-wit("roundBelow", "prop", "RoundOnlyBelowLimit", P3, 2, W2, "{}", 1, 2, 0, 0, 0, 0)
+wit("roundBelow", "prop", "RoundOnlyBelowLimit", P3, 2, W2, "{}", 1, 2, 0, 0, 0, 0, signed=False)   # the tree BEFORE /repo f5c221a
 wit("inSetConnected", "inv", "InSetConnected", P2, 1, W1, "{}", 1, 1, 1, 0, 0, 0)
 wit("inOrder", "inv", "ReportedInOrder", P2, 1, W1, "{}", 1, 1, 1, 0, 0, 0)
 wit("view", "inv", "ViewConsistent", P2, 1, W1, "{}", 1, 1, 1, 0, 0, 0)
@@ -52,8 +52,8 @@ wit("dial", "prop", "DialRespectsBackoff", P2, 2, W2, "{}", 1, 3, 1, 0, 0, 0)
 # ---- the same properties with the window closed (model variants = candidate repairs), every interleaving
 gen("V_atomicPeers", "variant: Peers() checks and parks atomically: nobody is stranded", "Spec", P2, 1, W1, '{"c1", "c2"}', 1, 2, 1, 0, 0, 2,
     atomic=True, tail=V + "INVARIANTS TypeOK NoStrandedWaiter PeersResult\n")
-gen("V_signedWant", "variant: discover() compares size >= limit: no round above the limit", "Spec", P3, 2, W2, "{}", 1, 2, 0, 0, 0, 0,
-    signed=True, tail=V + "INVARIANTS TypeOK SizeBound\nPROPERTIES RoundOnlyBelowLimit\n")
+gen("V_signedWant", "as is (since /repo f5c221a discover() compares size >= limit): no round above the limit", "Spec", P3, 2, W2, "{}", 1, 2, 0, 0, 0, 0,
+    tail=V + "INVARIANTS TypeOK SizeBound\nPROPERTIES RoundOnlyBelowLimit\n")
 SER = "INVARIANTS TypeOK SizeBound ReportedExactlyOnce ReportedInOrder ViewConsistent InSetConnected ProtectedInSetOrPending\n"
 gen("V_serialized", "variant: a worker's [re-check, Add, callback, Protect] and Discard exclude each other", "Spec", P2, 1, W1, "{}", 1, 3, 2, 1, 0, 0,
     serialized=True, tail=V + SER)
@@ -71,7 +71,9 @@ gen("Live_waiter_atomic", "liveness, variant AtomicPeers: every blocked caller i
 GT = "VIEW state\nACTION_CONSTRAINT CoarseSchedule\nINVARIANTS GoalCover\n"
 GN = "behaviours that reach rarely taken decision branches (GoalCover in MCDiscovery.tla)"
 gen("Goals_limit", GN, "SpecB", P3, 2, W2, "{}", 1, 2, 0, 0, 0, 0, gc=False, maxlen=200, tail=GT,
-    wanted=("full", "overshootround", "inset", "x_hardLimit", "x_roundBelow"))
+    wanted=("full", "inset", "x_hardLimit"))
+gen("Goals_prefix", "the tree BEFORE /repo f5c221a (unsigned want): " + GN, "SpecB", P3, 2, W2, "{}", 1, 2, 0, 0, 0, 0, gc=False, maxlen=200, tail=GT,
+    signed=False, wanted=("x_roundBelow",))
 gen("Goals_two", GN, "SpecB", P2, 2, W2, "{}", 1, 3, 1, 0, 0, 0, gc=False, maxlen=200, tail=GT, wanted=("x_dial",))
 gen("Goals_one", GN, "SpecB", P2, 1, W1, "{}", 1, 3, 1, 1, 1, 0, gc=False, maxlen=200, tail=GT,
     wanted=("refused", "redial", "self", "dialfail", "noop", "absent", "refill", "connected",
